@@ -206,7 +206,10 @@ const NPFX: u32 = 5;
 /// tell whose attributes it sees), session-wide withdrawals of its own ids
 fn writer_ops(t: u32, nthreads: u32, n: usize, seed: u64, wd_pct: u64) -> Vec<String> {
     let mut r = Sm(seed ^ ((t as u64 + 1) << 32));
+    // id 1 of a writer never loses its whole session, id 2 only single families, id 3 anything:
+    // the final RIB then still distinguishes announced from withdrawn (the marker is sticky)
     let id = |r: &mut Sm| 100 * (t + 1) + 1 + r.below(IDS_PER_WRITER as u64) as u32;
+    let wid = |r: &mut Sm| 100 * (t + 1) + 2 + r.below(IDS_PER_WRITER as u64 - 1) as u32;
     let pay = |r: &mut Sm| {
         let i = id(r);
         let fam = if r.below(100) < 70 { r.below(2) } else { 2 + r.below(2) } as u32;
@@ -214,18 +217,23 @@ fn writer_ops(t: u32, nthreads: u32, n: usize, seed: u64, wd_pct: u64) -> Vec<St
         if r.below(100) < 72 { format!("{}:{}:{}:{}", i, fam, p, t + nthreads * (r.below(6) as u32)) } else { format!("{}:{}:{}:w", i, fam, p) }
     };
     let mut v = vec![];
-    for _ in 0..n {
-        let k = r.below(100);
-        if k < wd_pct / 2 {
-            let f = if r.below(100) < 50 { "-".to_string() } else { r.below(4).to_string() };
-            v.push(format!("W {} {}", id(&mut r), f));
-        } else if k < wd_pct {
-            let m = 1 + r.below(IDS_PER_WRITER as u64);
-            let ids: Vec<String> = (0..m).map(|_| id(&mut r).to_string()).collect();
-            v.push(format!("X {}", ids.join(",")));
-        } else if k < wd_pct + 2 {
+    for k in 0..n {
+        let late = k * 10 >= n * 9; // whole-session losses of id 3 mostly near the end
+        let x = r.below(100);
+        if x < wd_pct / 2 {
+            let i = wid(&mut r);
+            if i % 100 == 2 || !late { v.push(format!("W {} {}", i, 1 + 2 * r.below(2))); } else { v.push(format!("W {} -", i)); }
+        } else if x < wd_pct {
+            if late {
+                let m = 1 + r.below(2);
+                let ids: Vec<String> = (0..m).map(|_| (100 * (t + 1) + 3).to_string()).collect();
+                v.push(format!("X {}", ids.join(",")));
+            } else {
+                v.push(format!("W {} {}", wid(&mut r), 1 + 2 * r.below(2)));
+            }
+        } else if x < wd_pct + 2 {
             v.push(format!("E {}", id(&mut r)));
-        } else if k < wd_pct + 2 + (98 - wd_pct) / 2 {
+        } else if x < wd_pct + 2 + (98 - wd_pct) / 2 {
             v.push(format!("S {}", pay(&mut r)));
         } else {
             let m = 2 + r.below(5);
